@@ -156,14 +156,14 @@ def run_shards(c20, ora, wd, jobs, full_every):
     return out
 
 def ops_of(text):
-    return [l for l in text.splitlines() if l[:2] in ("I ", "J ", "L ", "Y ", "G ")]
+    return [l for l in text.splitlines() if l[:2] in ("I ", "J ", "L ", "A ", "B ", "Y ", "G ")]
 
 def shrink(c20, ora, wd, text, code, budget_s=40):
     """delta debugging on the op list, keeping a P violation with the same code"""
     t0 = time.time()
     lines = text.splitlines()
     hdr = lines[0]
-    ops = [l for l in ops_of(text) if l[0] in "IJL"]
+    ops = [l for l in ops_of(text) if l[0] in "IJLAB"]
     def test(cand):
         hp, tp = os.path.join(wd, "shrink.hist"), os.path.join(wd, "shrink.trace")
         open(hp, "w").write("\n".join([hdr] + cand + ["E"]) + "\n")
